@@ -94,6 +94,17 @@ Section SubscribeModel.
   Definition drain (s : sub_state) : sub_state * list result :=
     drain_src (ss_exec s) (ss_source s) (ss_consumed s) (ss_trace s).
 
+  (* any history of a sequential consumer: j calls of __anext__ (it may stop
+     early, or go on calling after the stream has ended) *)
+  Fixpoint pulls (j : nat) (s : sub_state) : sub_state * list (option result) :=
+    match j with
+    | O => (s, [])
+    | S j' =>
+        let '(s1, r) := anext s in
+        let '(s2, rs) := pulls j' s1 in
+        (s2, r :: rs)
+    end.
+
   (* ---- subscribe(): the checks made before the source is touched, in the
      order of the code *)
   Inductive refusal :=
@@ -101,17 +112,20 @@ Section SubscribeModel.
   | RefVariables            (* coerce_variable_values: VariablesCoercionError *)
   | RefNotSubscription      (* operation.operation != "subscription" *)
   | RefRuntime              (* not isinstance(runtime, SubscriptionRuntime) *)
+  | RefDirectiveArguments   (* collect_fields on the root selection set raises CoercionError
+                               (invalid @skip / @include arguments, e.g. a null variable) *)
   | RefFieldCount           (* len(fields) != 1 *)
   | RefNoFieldDef           (* field_def is None *)
   | RefNoResolver.          (* field_def.subscription_resolver is None *)
 
-  Inductive exn_class := ExecutionErrorC | RuntimeErrorC | VariablesCoercionErrorC.
+  Inductive exn_class := ExecutionErrorC | RuntimeErrorC | VariablesCoercionErrorC | CoercionErrorC.
 
   (* InvalidOperationError is a subclass of ExecutionError *)
   Definition refusal_class (r : refusal) : exn_class :=
     match r with
     | RefInvalidOperation | RefFieldCount => ExecutionErrorC
     | RefVariables => VariablesCoercionErrorC
+    | RefDirectiveArguments => CoercionErrorC
     | RefNotSubscription | RefRuntime | RefNoFieldDef | RefNoResolver => RuntimeErrorC
     end.
 
@@ -120,6 +134,7 @@ Section SubscribeModel.
     sq_variables_ok : bool;
     sq_is_subscription : bool;
     sq_runtime_streams : bool;       (* runtime is a SubscriptionRuntime *)
+    sq_root_collect_ok : bool;       (* collect_fields on the root selection set does not raise *)
     sq_root_fields : nat;            (* number of response keys collected at the root *)
     sq_field_defined : bool;
     sq_has_subscription_resolver : bool }.
@@ -136,6 +151,7 @@ Section SubscribeModel.
     else if negb (sq_variables_ok q) then (Refused RefVariables, false, 0)
     else if negb (sq_is_subscription q) then (Refused RefNotSubscription, false, 0)
     else if negb (sq_runtime_streams q) then (Refused RefRuntime, false, 0)
+    else if negb (sq_root_collect_ok q) then (Refused RefDirectiveArguments, false, 0)
     else if negb (sq_root_fields q =? 1) then (Refused RefFieldCount, false, 0)
     else if negb (sq_field_defined q) then (Refused RefNoFieldDef, false, 0)
     else if negb (sq_has_subscription_resolver q) then (Refused RefNoResolver, false, 0)
